@@ -17,6 +17,7 @@ R3  exactly one line per write (terminator once; shared with C08.R5).
 from __future__ import annotations
 
 import ast
+import re
 
 from ..commands import CommandRun
 from ..driver import World
@@ -30,6 +31,11 @@ MUST_REMOVE = frozenset("\n\r")
 
 def caller_text(name: str) -> bool:
     return name.startswith("arg.") or name.startswith("kw[") or name.startswith("str(arg.") or name.startswith("str(kw[")
+
+
+def wraps_caller_text(name: str) -> bool:
+    """A text the analysis lost track of: the result of an operation it does not model, applied to caller text."""
+    return not caller_text(name) and re.search(r"\b(arg\.|kw\[)", name) is not None
 
 
 def _texts(v):
@@ -57,7 +63,9 @@ def analyse(W, name, f, ctx, desc, path):
         where = [f"delivered at {s.event.where()} via {chain(s.event)}", f"statement: {s.describe()[:100]}",
                  f"path decisions: {decisions_text(path, 8)}"]
         for p in s.parts:
-            if isinstance(p, Text) and caller_text(p.name):
+            if isinstance(p, Text) and wraps_caller_text(p.name):
+                items.append(("undecided", "R2", f"{entry}: the statement contains {p.name[:80]}: an operation on caller text that the analysis does not model"))
+            elif isinstance(p, Text) and caller_text(p.name):
                 if name == "write" and p.name == "arg.statement":
                     continue        # raw write(): the statement itself is the caller's
                 items.append(("viol", "R2", f"{name}:text-outside-comment:{p.name}",
@@ -73,6 +81,9 @@ def analyse(W, name, f, ctx, desc, path):
                 for a in p.args:
                     ts = _texts(a)
                     for t in ts:
+                        if wraps_caller_text(t.name):
+                            items.append(("undecided", "R2", f"{entry}: the comment text is {t.name[:80]}: an operation on caller text that the analysis does not model"))
+                            continue
                         if not caller_text(t.name):
                             continue
                         enclosed = path.facts.get("opt:fmt._comment_ending") == "some"
